@@ -1,4 +1,6 @@
 import SamlModel.Generated.FnDriver
+import SamlModel.Model.ChkDriver
+import SamlModel.Exec.C16
 /-! Driver.step: dispatch of one protocol line.  Unknown or unparsable ops yield `bad-op`. -/
 namespace Driver
 
@@ -8,6 +10,7 @@ def step (line : String) : String :=
     match Gen.fnDispatch name args with
     | some toks => " ".intercalate toks
     | none => "bad-op"
+  | "chk" :: args => (ChkDriver.run args).getD "bad-op"
   | _ => "bad-op"
 
 end Driver
